@@ -15,6 +15,7 @@ UPP = {ord(c): ord(c.upper()) for c in "abcdefghijklmn"}
 DIG = [ord(c) for c in "0123456789"]
 PUN = [ord(c) for c in ".,;:!?-'()/"]
 EXTRA = [0x00e9, 0x0100, 0x0564, 0x03b1, 0x2013]
+VARS = [1, 1, 2, 24, 25, 30, 49]        # pass variables: both halves of the 50-element array
 
 
 def dots_str(cell):
@@ -359,8 +360,8 @@ def gen(rng, want=None):
                 items.append(lit(tc, rng.randint(1, 2)) if rng.random() < 0.7 else attr())
             if rng.random() < 0.08:
                 items.append("~")
-            if rng.random() < 0.15:
-                items.append("#%d%s%d" % (rng.randint(1, 3), rng.choice(["=", "<", ">"]), rng.randint(0, 2)))
+            if rng.random() < 0.25:
+                items.append("#%d%s%d" % (rng.choice(VARS), rng.choice(["=", "=", "<", ">"]), rng.randint(0, 2)))
             test = "".join(items) or lit(tc, 1)
             acts = []
             for _k in range(rng.randint(1, 2)):
@@ -375,8 +376,8 @@ def gen(rng, want=None):
                     acts.append("%swa")
                 elif r < 0.9 and w.groups:
                     acts.append(rng.choice(["{grp", "}grp", "?"]))
-                elif r < 0.95:
-                    acts.append("#%d%s" % (rng.randint(1, 3), rng.choice(["=1", "+", "-", "=0"])))
+                elif r < 0.97:
+                    acts.append("#%d%s" % (rng.choice(VARS), rng.choice(["=1", "=1", "+", "-", "=0"])))
                 else:
                     acts.append(lit(ac, 1))
             if "?" in acts:
